@@ -7,11 +7,13 @@ RULE = ('real: generated scenarios on real pools in watchdogged child processes:
         'inside a task that swallows BaseException for 2.5 s, 0-8 queued jobs, 0-3 '
         'results delivered before the call; action in {terminate, terminate twice, '
         'del pool + gc, terminate_job(pid), SIGTERM sent to a worker while a marker '
-        'file proves it is inside its task}; optionally 2-3 idle workers are told '
+        'file proves it is inside its task, a 1 s hard time limit on a running '
+        'task followed by terminate()}; optionally the task feeder sits inside a '
+        'lazily produced imap whose input stalls for 6 s; optionally 2-3 idle workers are told '
         'to exit just before (supervisor busy replacing them, slow on_process_up), '
         'or the call lands inside a replacement\'s 1 s Process.start() (listed in '
         'the pool, no process yet). Non-trivial: >=1 worker inside task '
-        'code at the moment of the call. Distinct = canonical JSON of the case.')
+        'code at the moment of the call, or the feeder inside a lazy imap. Distinct = canonical JSON of the case.')
 ASSUMPTIONS = [
     'terminate() with an in-flight job takes ~7 s by design (result handler '
     'drains until its 5 s all-workers-gone timeout); bound used: 45 s, watchdog '
